@@ -42,8 +42,17 @@ func genFocus(h hashSpec) *rapid.Generator[focus] {
 
 // genContractOp draws one operation of the C16 alphabet.
 func genContractOp(f focus) *rapid.Generator[op] {
-	genKey := func() *rapid.Generator[string] { return rapid.SampledFrom(f.keys) }
-	genChild := func() *rapid.Generator[string] { return rapid.SampledFrom(f.children) }
+	// skewed: the first key / child of the focus is drawn half of the time
+	wk := append([]string{}, f.keys...)
+	for i := 0; i < len(f.keys); i++ {
+		wk = append(wk, f.keys[0])
+	}
+	wc := append([]string{}, f.children...)
+	for i := 0; i < len(f.children); i++ {
+		wc = append(wc, f.children[0])
+	}
+	genKey := func() *rapid.Generator[string] { return rapid.SampledFrom(wk) }
+	genChild := func() *rapid.Generator[string] { return rapid.SampledFrom(wc) }
 	return rapid.Custom(func(t *rapid.T) op {
 		kind := rapid.SampledFrom([]string{
 			"Put", "Put", "Put", "Put", "Get", "Get", "Delete", "Delete", "Delete",
@@ -191,7 +200,7 @@ func c16Witness(base string) bool {
 func TestC16(t *testing.T) {
 	const id = "C16"
 	rec := ev.New(t, id)
-	rec.Rule("rapid-generated operation sequences (16..40 ops, thorough ..80; per case a sub-alphabet of 2..5 keys and 1..3 children so that operations collide) over keys {a,ab,b,ba,c}, children {x,y,z}, values {nil, empty-non-nil, 2 bytes, 300 bytes}, ops Put/Get/Delete/PrefixAppend/Remove/Contains/List/ListKeys(prefix)/Acquire/Renew/Release (current, stale and forged tokens, valid and sub-second TTLs), hash ∈ {len mod 3, first byte mod 2, chord.Hash}; the same sequence is applied to memory, aof (real Start loop) and sqlite, each next to its own kvmodel instance, every return value compared (nil ≡ empty for values, lists as sets) plus a full read-back at the end. Non-trivial: the sequence contains a conflicting append AND a delete of a key that has both a value and children AND two data-holding keys with equal hash. Distinct = distinct (hash, op sequence).")
+	rec.Rule("rapid-generated operation sequences (20..40 ops, thorough ..80; per case a sub-alphabet of 2..5 keys and 1..3 children so that operations collide) over keys {a,ab,b,ba,c}, children {x,y,z}, values {nil, empty-non-nil, 2 bytes, 300 bytes}, ops Put/Get/Delete/PrefixAppend/Remove/Contains/List/ListKeys(prefix)/Acquire/Renew/Release (current, stale and forged tokens, valid and sub-second TTLs), hash ∈ {len mod 3, first byte mod 2, chord.Hash}; the same sequence is applied to memory, aof (real Start loop) and sqlite, each next to its own kvmodel instance, every return value compared (nil ≡ empty for values, lists as sets) plus a full read-back at the end. Non-trivial: the sequence contains a conflicting append AND a delete of a key that has both a value and children AND two data-holding keys with equal hash. Distinct = distinct (hash, op sequence).")
 	rec.Assume("lease TTLs in this check are one hour, so no grant expires within a case (timed lease behaviour is C19)",
 		"token 0 is never presented (0 is the wire encoding of 'no token' and is never issued)",
 		"kvmodel is the contract: empty simple value ≡ absent, three independent keyspaces per key")
@@ -207,7 +216,7 @@ func TestC16(t *testing.T) {
 	ev.RapidCheck(t, 250, 8000, func(t *rapid.T) {
 		hash := hashSpec{Name: rapid.SampledFrom([]string{"len3", "len3", "first2", "first2", "chord"}).Draw(t, "hash")}
 		f := genFocus(hash).Draw(t, "focus")
-		n := rapid.IntRange(16, maxOps).Draw(t, "nops")
+		n := rapid.IntRange(20, maxOps).Draw(t, "nops")
 		ops := rapid.SliceOfN(genContractOp(f), n, n).Draw(t, "ops")
 
 		stores := make([]*tracked, 0, 3)
